@@ -8,7 +8,7 @@
    transformation() followed by conversion_surface_params(). *)
 From Coq Require Import List ZArith Bool Reals Lra.
 From T4V Require Import Base.Scalar C04.Vec C04.Model C04.Spec C04.ProofsFrame C04.ProofsConvert
-  C04.ProofsQuad C04.ProofsSurf C04.ProofsMatrix C04.ProofsCard C04.ProofsTorus C04.ProofsMatrix5 C04.ProofsCompose C04.ProofsComposeCex C04.ProofsAdjust C04.ProofsTree C04.ProofsInterface C04.ProofsErrors C04.ProofsExact.
+  C04.ProofsQuad C04.ProofsSurf C04.ProofsMatrix C04.ProofsCard C04.ProofsTorus C04.ProofsMatrix5 C04.ProofsCompose C04.ProofsComposeCex C04.ProofsAdjust C04.ProofsTree C04.ProofsInterface C04.ProofsErrors C04.ProofsExact C04.ProofsStar.
 Import ListNotations.
 Open Scope R_scope.
 
@@ -409,6 +409,35 @@ Theorem C04_trcl_cell_t4 : forall (o : R3) (b : M3 R) cellsem (t t' : gtree) (st
 Proof. exact trcl_cell_t4. Qed.
 
 
+(* ---------- starred / abbreviated cards at card level (asked by C03) ---------- *)
+(* a *TR card (not the 3-entry form) is the TR card of the cosines: J stays J, displacement and m untouched *)
+Theorem C04_tr_card_star_is_cos : forall pl : list (option R), List.length pl <> 3%nat ->
+  tr_card RS true pl = tr_card RS false (cos_entries pl).
+Proof. exact tr_card_star_is_cos. Qed.
+
+(* an abbreviated pattern that normalize_matrix completes to an orthonormal b (use the
+   C04_normalize_matrix_3/5/6_reproduces theorems for b) gives, as a whole card, displacement + b *)
+Theorem C04_normalize_transform_abbrev : forall (o : R3) (pat : M3 (option R)) (b : M3 R),
+  normalize_matrix RS (mlist pat) = Ok (mlist b) -> rows_orthonormal b -> clip_ok_m b ->
+  normalize_transform RS (map Some (vlist o) ++ mlist pat) = Ok (vlist o ++ mlist b) /\
+  tr_card RS false (map Some (vlist o) ++ mlist pat) = Ok (vlist o ++ mlist b).
+Proof. exact normalize_transform_abbrev. Qed.
+
+Theorem C04_tr_card_star_abbrev : forall (o : R3) (ang : M3 (option R)) (b : M3 R),
+  let pat := vmap (vmap (option_map (to_cos RS))) ang in
+  normalize_matrix RS (mlist pat) = Ok (mlist b) -> rows_orthonormal b -> clip_ok_m b ->
+  tr_card RS true (map Some (vlist o) ++ mlist ang) = Ok (vlist o ++ mlist b).
+Proof. exact tr_card_star_abbrev. Qed.
+
+(* derived coefficient: the offset of the written plane under two matrices entrywise within 1e-10 *)
+Theorem C04_plane_offset_perturbation : forall (b q : M3 R) (o pt n : R3) cp nap,
+  close_m b q ->
+  let sb := mkMS KP (to_main o b pt) (tvec b n) cp nap in
+  let sq := mkMS KP (to_main o q pt) (tvec q n) cp nap in
+  Rabs (neg_pos RS sb - neg_pos RS sq)
+  <= eps10 * l1 n * l1 (to_main o b pt) + eps10 * l1 pt * l1 (tvec q n).
+Proof. exact plane_offset_perturbation. Qed.
+
 (* ================================================================== *)
 (* every theorem above is a member of exactly one family; a family is the
    conjunction of its members themselves, so one Print Assumptions audits them all *)
@@ -421,14 +450,14 @@ Print Assumptions C04_family_surfaces.
 
 (* abbreviated matrices completed, adjust_matrix, exactness and perturbation of normalize_transform *)
 Theorem C04_family_matrices :
-  ltac:(let t := type of (conj C04_normalize_matrix_9_reproduces (conj C04_normalize_matrix_6_reproduces (conj C04_normalize_matrix_6_cols_reproduces (conj C04_normalize_matrix_3_reproduces (conj C04_normalize_matrix_3_cols_reproduces (conj C04_normalize_matrix_5_reproduces (conj C04_adjust_matrix_fixpoint (conj C04_adjust_matrix_near_orthonormal (conj C04_adjust_matrix_idempotent (conj C04_normalize_matrix_trailing_J (conj C04_normalize_transform_exact (conj C04_frame_perturbation C04_normalize_transform_perturbation)))))))))))) in exact t).
-Proof. exact (conj C04_normalize_matrix_9_reproduces (conj C04_normalize_matrix_6_reproduces (conj C04_normalize_matrix_6_cols_reproduces (conj C04_normalize_matrix_3_reproduces (conj C04_normalize_matrix_3_cols_reproduces (conj C04_normalize_matrix_5_reproduces (conj C04_adjust_matrix_fixpoint (conj C04_adjust_matrix_near_orthonormal (conj C04_adjust_matrix_idempotent (conj C04_normalize_matrix_trailing_J (conj C04_normalize_transform_exact (conj C04_frame_perturbation C04_normalize_transform_perturbation)))))))))))). Qed.
+  ltac:(let t := type of (conj C04_plane_offset_perturbation (conj C04_normalize_matrix_9_reproduces (conj C04_normalize_matrix_6_reproduces (conj C04_normalize_matrix_6_cols_reproduces (conj C04_normalize_matrix_3_reproduces (conj C04_normalize_matrix_3_cols_reproduces (conj C04_normalize_matrix_5_reproduces (conj C04_adjust_matrix_fixpoint (conj C04_adjust_matrix_near_orthonormal (conj C04_adjust_matrix_idempotent (conj C04_normalize_matrix_trailing_J (conj C04_normalize_transform_exact (conj C04_frame_perturbation C04_normalize_transform_perturbation))))))))))))) in exact t).
+Proof. exact (conj C04_plane_offset_perturbation (conj C04_normalize_matrix_9_reproduces (conj C04_normalize_matrix_6_reproduces (conj C04_normalize_matrix_6_cols_reproduces (conj C04_normalize_matrix_3_reproduces (conj C04_normalize_matrix_3_cols_reproduces (conj C04_normalize_matrix_5_reproduces (conj C04_adjust_matrix_fixpoint (conj C04_adjust_matrix_near_orthonormal (conj C04_adjust_matrix_idempotent (conj C04_normalize_matrix_trailing_J (conj C04_normalize_transform_exact (conj C04_frame_perturbation C04_normalize_transform_perturbation))))))))))))). Qed.
 Print Assumptions C04_family_matrices.
 
 (* TR / *TR cards, inline TRCL / FILL, degrees, m = 1 only, error branches *)
 Theorem C04_family_cards :
-  ltac:(let t := type of (conj C04_error_branches (conj C04_to_cos_deg (conj C04_tr_card_3 (conj C04_tr_card_12 (conj C04_tr_card_star_12 (conj C04_m1_only (conj C04_inline_12 C04_inline_number))))))) in exact t).
-Proof. exact (conj C04_error_branches (conj C04_to_cos_deg (conj C04_tr_card_3 (conj C04_tr_card_12 (conj C04_tr_card_star_12 (conj C04_m1_only (conj C04_inline_12 C04_inline_number))))))). Qed.
+  ltac:(let t := type of (conj C04_tr_card_star_abbrev (conj C04_normalize_transform_abbrev (conj C04_tr_card_star_is_cos (conj C04_error_branches (conj C04_to_cos_deg (conj C04_tr_card_3 (conj C04_tr_card_12 (conj C04_tr_card_star_12 (conj C04_m1_only (conj C04_inline_12 C04_inline_number)))))))))) in exact t).
+Proof. exact (conj C04_tr_card_star_abbrev (conj C04_normalize_transform_abbrev (conj C04_tr_card_star_is_cos (conj C04_error_branches (conj C04_to_cos_deg (conj C04_tr_card_3 (conj C04_tr_card_12 (conj C04_tr_card_star_12 (conj C04_m1_only (conj C04_inline_12 C04_inline_number)))))))))). Qed.
 Print Assumptions C04_family_cards.
 
 (* compose_transform and its call sites in develop_lattice *)
